@@ -34,8 +34,8 @@ class FlowTap:
         tap = self
 
         def mk(orig, key):
-            def retrieve_flow(self_, coordinates, rho):
-                r = orig(self_, coordinates, rho)
+            def retrieve_flow(self_, coordinates, rho, *a_, **kw_):
+                r = orig(self_, coordinates, rho, *a_, **kw_)
                 tap.hits[key] += 1
                 tap.events.append({"ev": "retrieve", "type": self_.flow_type.name, "V": self_.V_flow, "N": len(coordinates), "rho": rho,
                                    "v_sys": r[0], "m_bh": r[1]})
